@@ -1,0 +1,22 @@
+//go:build verif
+
+// Contracts for the deductive verifier in /verif (comment-only file; it
+// contributes no code to any build). Syntax: see /verif/DESIGN.md.
+//
+// Property C17, the deduplicating replicator: never more than one copy of the
+// same object in flight. The table of in-flight replications is shared under
+// the replicator's lock (whatever it held is forgotten each time the lock is
+// taken: other callers may have changed it), and an entry for a key is
+// installed only while the lock is held and only if, within that same hold,
+// the table was seen to have no entry for that key — a caller that waited for
+// somebody else's failed attempt has to look again after retaking the lock.
+package replication
+
+//@ lockhavoc map:deduplicatingBlobReplicator.inFlightReplications
+//@ func (*deduplicatingBlobReplicator).ReplicateMultiple
+//@   requires br.base != nil && br.sink != nil && held(addr(br.lock)) == 0
+//@   updaterequires inFlightReplications [one-copy-per-object-at-a-time] held(addr(br.lock)) == 2 && !has(br.inFlightReplications, argkey)
+//@   loop 0 invariant -1 <= rangeindex && held(addr(br.lock)) == 0 && unchanged(br.base) && unchanged(br.sink) && unchanged(br.inFlightReplications)
+//@   loop 0 invariant forall x :: held(x) == old(held(x))
+//@   loop 1 invariant held(addr(br.lock)) == 2 && unchanged(br.base) && unchanged(br.sink) && unchanged(br.inFlightReplications)
+//@   loop 1 invariant forall x :: x != addr(br.lock) ==> held(x) == old(held(x))
